@@ -80,6 +80,10 @@ Truncate(s, k) ==
       pk |-> PeaksOf(par2, 1, <<>>), lp |-> SubSeq(s.lp, 1, k),
       tm |-> IF k <= TermLeaves /\ Len(s.tm) >= sz THEN SubSeq(s.tm, 1, sz) ELSE <<>>]
 
+\* Pruning (PMMR::prune / Backend::remove) is not a transition of this module: the root, the peaks and
+\* the proof paths below are functions of the forest m alone, and m keeps the hash term of every node.
+\* The replay therefore demands that removing any set of leaves from a real backend leaves the root and
+\* the proofs of the remaining leaves exactly as emitted here (hashes of removed leaves are retained).
 Init == m = Empty
 Push == NL(m) < MaxLeaves /\ m' = AppendLeaf(m)
 Rewind(k) == k \in 0..NL(m) /\ m' = Truncate(m, k)
